@@ -189,6 +189,36 @@ def narrow_ledger(ctx, rep, tab):
         "bits (other than to bool) is listed in rules/c08.json with the reason its operand fits")
     ledger = tab.get("narrow_ledger", {})
     seen = {}
+
+    def contexts(tree):
+        """{id(cast node): context} - what the narrowed value is used for (names of locals do not matter)"""
+        out = {}
+
+        def visit(n, ctx_):
+            if not isinstance(n, dict):
+                return
+            k = n.get("k")
+            if k in ("icast", "cast"):
+                out[id(n)] = ctx_
+            if k == "call":
+                nm = strip_targs(n.get("fn") or "").replace("draco::", "")
+                for a in n.get("args") or []:
+                    visit(a, "argument of " + nm)
+                visit(n.get("obj"), ctx_)
+                return
+            if k == "bin" and n.get("op", "").endswith("=") and n["op"] not in ("==", "!=", "<=", ">="):
+                l = n.get("l")
+                tgt = "element store" if isinstance(l, dict) and (l.get("k") in ("sub",) or (
+                    l.get("k") == "call" and strip_targs(l.get("fn") or "").endswith("operator[]"))) else "assignment"
+                visit(n.get("r"), tgt)
+                visit(l, ctx_)
+                return
+            for kk in ("e", "l", "r", "c", "t", "f", "base", "idx"):
+                visit(n.get(kk), ctx_)
+            for a in n.get("args") or []:
+                visit(a, ctx_)
+        visit(tree, "expression")
+        return out
     for f in F.fns.values():
         is_ctl = f.name.startswith("verif_control::c08_narrow")
         if "/draco/compression/entropy/" not in f.file and not is_ctl:
@@ -196,6 +226,7 @@ def narrow_ledger(ctx, rep, tab):
         for b, rk, tree, ev in f.roots():
             if tree is None:
                 continue
+            cx = contexts(tree)
             for n in walk(tree):
                 if n.get("k") not in ("icast", "cast") or not n.get("iw") or "v" in n or n["iw"] >= 32 or n["iw"] == 1:
                     continue
@@ -204,12 +235,12 @@ def narrow_ledger(ctx, rep, tab):
                     e = e.get("e")
                 if not isinstance(e, dict) or not e.get("iw") or e["iw"] <= n["iw"]:
                     continue
-                name = None
-                for x in walk(e):
-                    if x.get("k") in ("var", "field") and x.get("n"):
-                        name = x["n"]
-                        break
-                key = "%d | %s" % (n["iw"], name or "expression")
+                c_ = cx.get(id(n), "expression")
+                if c_ == "expression" and rk == "decl":
+                    c_ = "initialiser of a local"
+                elif c_ == "expression" and rk == "ret":
+                    c_ = "returned value"
+                key = "%d | %s" % (n["iw"], c_)
                 seen.setdefault((key, is_ctl), (f, n, ev))
     n_real, fired = 0, False
     for (key, is_ctl), (f, n, ev) in sorted(seen.items(), key=lambda x: (x[0][0], x[0][1])):
